@@ -6,6 +6,8 @@
 //       op: L:<name>:<0|1>  (L = F filter, P prediction, C correction, M state model; ~ = empty name)
 //           p  predict on the running belief      c  correct on the running belief
 //           H  hand-over: prediction and correction objects are move-constructed into new ones, held by a new filter
+//           A  attach a (new) exogenous model through prediction().getStateModel().add_exogenous_model
+//           X:<name>:<0|1>  prediction().getStateModel().exogenous_model().skip(name, on)
 //   -> init/<flags>/<P>/<C>  then per op  r<1|0|T|E>/<flags>/<P>/<C>  |  p/<P>  |  c/<C>
 //
 // flags: prediction().is_skipping(), state model is_skipping(), exogenous model is_skipping() or '-'.
@@ -32,6 +34,7 @@
 #include <BayesFilters/ParticleSetInitialization.h>
 #include <BayesFilters/Resampling.h>
 #include <memory>
+#include <cmath>
 
 using namespace bfl;
 using namespace Eigen;
@@ -179,9 +182,36 @@ static void fillGM(GaussianMixture& b, Rng& r) {
         b.weight(c) = -r.pos(0.1, 3.0);
     }
 }
+// Non-canonical content (round 4): "returns its input unchanged" is a bit-for-bit statement, so the input must
+// contain what a rewrite such as 0.5 (P + P^T), x + 0.0, x * 1.0 or a flush-to-zero would alter -- covariances
+// symmetric only up to one ulp (what F P F^T + Q leaves behind), negative zeros and denormals in every field.
+// variant 0: canonical; 1: one-ulp asymmetries; 2: negative zeros / denormals; 3: both.
+static void uncanonGM(GaussianMixture& b, int variant) {
+    long n = b.dim, k = b.components;
+    if (variant & 1)
+        for (long c = 0; c < k; ++c) for (long i = 0; i < n; ++i) for (long j = i + 1; j < n; ++j)
+            if ((i + j + c) % 2 == 0) b.covariance(c)(i, j) = std::nextafter(b.covariance(c)(i, j), 1e300);
+            else b.covariance(c)(j, i) = std::nextafter(b.covariance(c)(j, i), -1e300);
+    if (variant & 2) {
+        b.mean(0)(0) = -0.0;
+        if (n > 1) b.mean(k - 1)(n - 1) = 4.9406564584124654e-324 * 3;
+        if (n > 2) b.mean(0)(1) = -2.2250738585072014e-308 / 4;
+        if (k > 1) b.weight(k - 1) = -0.0;
+        if (n > 1) { b.covariance(0)(0, n - 1) = -0.0; b.covariance(0)(n - 1, 0) = 0.0; }   // equal as numbers, not as bits
+    }
+}
 static void fillPS(ParticleSet& b, Rng& r) {
     fillGM(b, r);
     for (long c = 0; c < (long)b.components; ++c) for (long i = 0; i < (long)b.dim; ++i) b.state(c, i) = r.dy(4.0);
+}
+static void uncanonPS(ParticleSet& b, int variant) {
+    uncanonGM(b, variant);
+    if (variant & 2) {
+        // (never every entry of the set: F * 0 = 0 would make the references `fx` and `copy` coincide)
+        if (b.components > 1 || b.dim > 1) b.state(0, 0) = -0.0;
+        if (b.dim > 1 && b.components > 1) b.state(b.components - 1, b.dim - 1) = -4.9406564584124654e-324;
+        if (b.components > 2) b.state(1, 0) = 2.2250738585072014e-308 / 8;
+    }
 }
 static void poisonGM(GaussianMixture& b) { b.mean().setConstant(12345.0); b.covariance().setConstant(-54321.0); b.weight().setConstant(777.0); }
 static void poisonPS(ParticleSet& b) { poisonGM(b); b.state().setConstant(999.0); }
@@ -228,7 +258,7 @@ struct GaussCase {
     GaussCase(const std::string& pk, bool exo_, const std::string& ck, uint64_t seed, long n, long k)
         : d(seed, n, k), exo(exo_), pk(pk), ck(ck), fp(new HGF(mkGPred(pk, d, exo_), mkGCorr(ck, d))),
           twin_fx(mkGPred(pk, d, false)), twin_fxexo(mkGPred(pk, d, true)), twin_c(mkGCorr(ck, d)), cur(k, n) {
-        Rng r(seed ^ 0x55aa); fillGM(cur, r);
+        Rng r(seed ^ 0x55aa); fillGM(cur, r); uncanonGM(cur, (int)(seed % 4));
     }
     std::string flags() {
         StateModel& sm = fp->prediction().getStateModel();
@@ -275,6 +305,9 @@ struct GaussCase {
     bool skipP(const std::string& nm, bool on) { return fp->prediction().skip(nm, on); }
     bool skipC(bool on) { return fp->correction().skip(on); }
     bool skipM(const std::string& nm, bool on) { return fp->prediction().getStateModel().skip(nm, on); }
+    bool skipX(const std::string& nm, bool on) { return fp->prediction().getStateModel().exogenous_model().skip(nm, on); }
+    // configuration changed after construction, through the object's own accessors
+    void attach() { fp->prediction().getStateModel().add_exogenous_model(std::unique_ptr<ExogenousModel>(new HExo(d.G, d.g))); }
     // hand the steps over: move-construct new prediction / correction objects from the filter's and build a new filter
     void handover() {
         std::unique_ptr<GaussianPrediction> np; std::unique_ptr<GaussianCorrection> nc;
@@ -294,7 +327,7 @@ struct PartCase {
     PartCase(const std::string& pk_, bool exo_, const std::string& ck_, uint64_t seed, long n, long k)
         : d(seed, n, k), exo(exo_), pk(pk_), ck(ck_), fp(new HPF(mkPPred(pk_, d, exo_), mkPCorr(ck_, d, (unsigned)seed))),
           twin_fx(mkPPred(pk_ == "draw2" ? "draw" : pk_, d, false)), twin_fxexo(mkPPred(pk_ == "draw2" ? "draw" : pk_, d, true)), twin_c(mkPCorr(ck_, d, (unsigned)seed)), cur(k, n) {
-        Rng r(seed ^ 0x55aa); fillPS(cur, r);
+        Rng r(seed ^ 0x55aa); fillPS(cur, r); uncanonPS(cur, (int)(seed % 4));
     }
     std::string flags() {
         StateModel& sm = fp->prediction().getStateModel();
@@ -363,6 +396,9 @@ struct PartCase {
     bool skipP(const std::string& nm, bool on) { return fp->prediction().skip(nm, on); }
     bool skipC(bool on) { return fp->correction().skip(on); }
     bool skipM(const std::string& nm, bool on) { return fp->prediction().getStateModel().skip(nm, on); }
+    bool skipX(const std::string& nm, bool on) { return fp->prediction().getStateModel().exogenous_model().skip(nm, on); }
+    // configuration changed after construction, through the object's own accessors
+    void attach() { fp->prediction().getStateModel().add_exogenous_model(std::unique_ptr<ExogenousModel>(new HExo(d.G, d.g))); }
     void handover() {
         std::unique_ptr<PFPrediction> np; std::unique_ptr<PFCorrection> nc;
         if (pk == "gpfkf") np.reset(new GPFPrediction(std::move(dynamic_cast<GPFPrediction&>(fp->prediction()))));
@@ -381,6 +417,7 @@ template <class Case> static std::string runOps(Case& cs, Toks& t) {
         if (op == "p") { o.s("p/" + cs.predict(true)); continue; }
         if (op == "c") { o.s("c/" + cs.correct(true)); continue; }
         if (op == "H") { cs.handover(); o.s("h/" + cs.flags() + "/" + cs.predict(false) + "/" + cs.correct(false)); continue; }
+        if (op == "A") { cs.attach(); o.s("a/" + cs.flags() + "/" + cs.predict(false) + "/" + cs.correct(false)); continue; }
         size_t a = op.find(':'), b = op.rfind(':');
         if (a != 1 || b == a || b + 2 != op.size()) throw vh::BadArgs("op:" + op);
         char lvl = op[0]; std::string nm = op.substr(a + 1, b - a - 1); if (nm == "~") nm = "";
@@ -393,6 +430,7 @@ template <class Case> static std::string runOps(Case& cs, Toks& t) {
             else if (lvl == 'P') ret = cs.skipP(nm, on);
             else if (lvl == 'C') ret = cs.skipC(on);
             else if (lvl == 'M') ret = cs.skipM(nm, on);
+            else if (lvl == 'X') ret = cs.skipX(nm, on);
             else throw vh::BadArgs("lvl:" + op);
             r = ret ? "r1" : "r0";
         } catch (const vh::BadArgs&) { throw; }
